@@ -1371,7 +1371,7 @@ func ipamRandomScenario(k int, env string, skip map[string]bool) []vt.M {
 			sc = append(sc, vt.M{"a": "pod_delete", "p": p})
 		}
 		sc = append(sc, vt.M{"a": "flush"}, vt.M{"a": "reconcile"})
-		if rng.Intn(2) == 0 {
+		if rng.Intn(3) == 0 {
 			sc = append(sc, vt.M{"a": "reconcile"})
 		}
 		sc = append(sc, vt.M{"a": "pod_create", "p": 1 + rng.Intn(2)}, vt.M{"a": "pod_create", "p": 3 + rng.Intn(2)},
@@ -1401,6 +1401,9 @@ func ipamRandomScenario(k int, env string, skip map[string]bool) []vt.M {
 	case "rdma":
 		// RDMA and ordinary pods compete for addresses while both kinds of interface have idle ones
 		cf["rdma"], cf["sec"], cf["trunk"] = 1, 1, false
+		if rng.Intn(3) != 0 {
+			cf["v4"], cf["v6"] = true, false
+		}
 		if rng.Intn(2) == 0 {
 			cf["pre"], cf["preIPs"], cf["init"] = 1, 2, "empty"
 			sc = append(sc, vt.M{"a": "pod_create", "p": 1, "rdma": true}, vt.M{"a": "reconcile"}, vt.M{"a": "pod_create", "p": 2}, rec(), rec())
